@@ -51,11 +51,11 @@ PROPS = {
         'Kani loop-free harnesses over kani::any() payloads with concrete Variant discriminants',
         'one harness per concrete Variant kind (symbolic payload); Variant drop glue not exercised (mem::forget)'),
     'C07': P(
-        'Proof of the location kernel only: every position a diagnostic can carry lies inside the text or immediately at its end (Verus, all texts), and repetition terminates when elements make progress; grammar-wide panic freedom is not under contract.',
-        'create_row_col_view/StringView::position: for any index the reported (row,col) is that of a character of the text or the end position; ManyParser loop terminates under element progress.',
-        'panic-freedom and termination of the grammar and linter as a whole (about 60 panic!/expect/unwrap sites); stack depth',
-        'Verus contracts on the extracted position table and repetition combinator',
-        'text length < 2^32-1 (u32 row/col counters) is a stated precondition'),
+        'Proof of the location kernel (every position a diagnostic can carry lies inside the text or immediately at its end; Verus, all texts) and of totality - no panic, no arithmetic overflow, termination - of the parse/check functions under contract: the repetition combinators (under element progress), the operator-precedence rotation, the literal converters, the name tables, the DEFtype table and every post-conversion linter traversal. Grammar-wide panic freedom is not under contract.',
+        'create_row_col_view/StringView::position: for any index the reported (row,col) is that of a character of the text or the end position; Many/ManyCtx/Delimited loops terminate under element progress; binary_expr/flip_binary/apply_unary_priority_order terminate and their three panic! sites are unreachable; hex/oct/decimal/negated literal conversion never overflows or panics on any digit string up to the stated lengths; Names/NameInfo/Compacts operations, TypeResolverImpl and the linter traversals (PostConversionLinter defaults, LabelLinter, ForNextCounterMatch, BuiltInLinter, UndefinedFunctionReducer) return on every tree without reaching a panic site.',
+        'panic-freedom and termination of the combinator grammar itself and of the converter (pre-linter, expr_rules) as a whole; stack depth',
+        'Verus contracts on the extracted position table, combinators, rotation, name tables and linter traversals; Kani loop-free harnesses on literal converters and the DEFtype table',
+        'text length < 2^32-1 (u32 row/col counters) is a stated precondition; under C07 the hex/oct literal harnesses run in the thorough tier (quick obligations of C10)'),
     'C08': P(
         'Proof of the error-surface kernel: every error a handler can return has a code (no panic in get_code), argument-conversion helpers are total, and every expect/unwrap/index inside the units under contract is unreachable under the unit invariant.',
         'RuntimeError::get_code total over the whole enum incl. LinterError(any LintError); variant_casts helpers total on valid numeric Variants; panic sites in Context/NearestStatementFinder/VArray/DataSegment unreachable under well-formedness.',
